@@ -23,6 +23,7 @@ def replaceAt(string: str, index: int, ch: str) -> str:
 
 def process_inlines(tokens: list[Token], state: StateCore) -> None:
     stack: list[dict[str, Any]] = []
+    inside_autolink = False
 
     for i, token in enumerate(tokens):
         thisLevel = token.level
@@ -38,7 +39,13 @@ def process_inlines(tokens: list[Token], state: StateCore) -> None:
 
         stack = stack[: j + 1]
 
-        if token.type != "text":
+        if token.type == "link_open" and token.info == "auto":
+            inside_autolink = True
+        elif token.type == "link_close" and token.info == "auto":
+            inside_autolink = False
+
+        # the text of an autolink is its URL: leave it alone (as replacements does)
+        if token.type != "text" or inside_autolink:
             continue
 
         text = token.content
